@@ -36,9 +36,11 @@ func openDefaultPoll() (*defaultPoll, error) {
 		return nil, err
 	}
 	poll.fd = p
+	verifFD(vfdEpoll, poll, p)
 
 	r0, _, e0 := syscall.Syscall(syscall.SYS_EVENTFD2, 0, 0, 0)
 	if e0 != 0 {
+		verifFD(-vfdEpoll, poll, poll.fd)
 		_ = syscall.Close(poll.fd)
 		return nil, e0
 	}
@@ -46,8 +48,11 @@ func openDefaultPoll() (*defaultPoll, error) {
 	poll.Reset = poll.reset
 	poll.Handler = poll.handler
 	poll.wop = &FDOperator{FD: int(r0)}
+	verifFD(vfdEventfd, poll, int(r0))
 
 	if err = poll.Control(poll.wop, PollReadable); err != nil {
+		verifFD(-vfdEventfd, poll, poll.wop.FD)
+		verifFD(-vfdEpoll, poll, poll.fd)
 		_ = syscall.Close(poll.wop.FD)
 		_ = syscall.Close(poll.fd)
 		return nil, err
@@ -106,10 +111,12 @@ func (p *defaultPoll) Wait() (err error) {
 			runtime.Gosched()
 			continue
 		}
+		verifPoint(vpPollBatchBegin, p, n)
 		msec = 0
 		if p.Handler(p.events[:n]) {
 			return nil
 		}
+		verifPoint(vpPollBatchEnd, p, n)
 		// we can make sure that there is no op remaining if Handler finished
 		p.opcache.free()
 	}
@@ -121,11 +128,13 @@ func (p *defaultPoll) handler(events []epollevent) (closed bool) {
 	for i := range events {
 		operator := p.getOperator(0, unsafe.Pointer(&events[i].data))
 		if operator == nil || !operator.do() {
+			verifPoint(vpPollSkip, operator, int(events[i].events))
 			continue
 		}
 
 		var totalRead int
 		evt := events[i].events
+		verifPoint(vpPollEvent, operator, int(evt))
 		triggerRead = evt&syscall.EPOLLIN != 0
 		triggerWrite = evt&syscall.EPOLLOUT != 0
 		triggerHup = evt&(syscall.EPOLLHUP|syscall.EPOLLRDHUP) != 0
@@ -133,11 +142,15 @@ func (p *defaultPoll) handler(events []epollevent) (closed bool) {
 
 		// trigger or exit gracefully
 		if operator.FD == p.wop.FD {
+			verifPoint(vpPollWake, p, 0)
 			// must clean trigger first
 			syscall.Read(p.wop.FD, p.buf)
 			atomic.StoreUint32(&p.trigger, 0)
 			// if closed & exit
 			if p.buf[0] > 0 {
+				verifPoint(vpPollExit, p, 0)
+				verifFD(-vfdEventfd, p, p.wop.FD)
+				verifFD(-vfdEpoll, p, p.fd)
 				syscall.Close(p.wop.FD)
 				syscall.Close(p.fd)
 				operator.done()
@@ -214,6 +227,7 @@ func (p *defaultPoll) handler(events []epollevent) (closed bool) {
 		}
 		operator.done()
 	}
+	verifPoint(vpPollDispatchDone, p, len(events))
 	// hup conns together to avoid blocking the poll.
 	p.onhups()
 	return false
@@ -242,6 +256,7 @@ func (p *defaultPoll) Control(operator *FDOperator, event PollEvent) error {
 	// op.inuse()       op.unused()
 	// op.FD  -- T1     op.FD = 0  -- T2
 	// T1 and T2 may happen together
+	verifPoint(vpPollControl, operator, int(event))
 	fd := operator.FD
 	var op int
 	var evt epollevent
